@@ -8,6 +8,7 @@ IDX = ['0', '1', '2', '3', '4', '5', '6', '-1', '-0', '0.4', '0.5', '0.6', '1.5'
        '-2147483648', '-2147483904', '4294967296', '2e9', '-2e9', '4e9', '1e10', '9.2e18', '1e38', '-1e38', '1e39', '-1e39', '1e400', '-1e400', '16777217', '9999999', '10000000']
 SMALL = ['0', '1', '2', '3', '5', '7', '-1', '0.5', '1.5', '2.49', '-0.4']
 ARRS = ['[]', '[1]', '[1,2,3,4,5]', '["a","b","c"]', '[[1,2],[3],[]]', '[1,"a",true,{},[],nil]', '[nil,nil]', '[5,4,3,2,1,0,9,8,7,6,11,10]']
+SIZES = {'[]': 0, '[1]': 1, '[1,2,3,4,5]': 5, '["a","b","c"]': 3, '[[1,2],[3],[]]': 3, '[1,"a",true,{},[],nil]': 6, '[nil,nil]': 2, '[5,4,3,2,1,0,9,8,7,6,11,10]': 12}
 
 
 class KernGen:
@@ -18,8 +19,11 @@ class KernGen:
     def note(self, k):
         self.stats[k] = self.stats.get(k, 0) + 1
 
-    def n(self, small=1, big=2):
+    def n(self, small=1, big=2, size=None):
         r = self.r
+        if size is not None and r.chance(1, 3):
+            # around the size of the array: the last index, the size itself, one more
+            return str(r.choice([size - 1, size, size + 1, size, size - 0.5, size + 0.4]))
         return r.choice(SMALL) if r.below(small + big) < small else r.choice(IDX)
 
     def program(self):
@@ -28,25 +32,26 @@ class KernGen:
                         ('deleterange_bad', 2)])
         self.note(k)
         a = r.choice(ARRS)
+        size = SIZES[a]
         if k == 'select':
-            return 'tr = %s; g1 = tr select %s; g2 = 1;' % (a, self.n())
+            return 'tr = %s; g1 = tr select %s; g2 = 1;' % (a, self.n(size=size))
         if k == 'selectrange':
-            return 'tr = %s; g1 = tr select [%s, %s]; g2 = 1;' % (a, self.n(), self.n())
+            return 'tr = %s; g1 = tr select [%s, %s]; g2 = 1;' % (a, self.n(size=size), self.n(size=size))
         if k == 'selectrange_bad':
             return 'tr = %s; g1 = tr select %s; g2 = 1;' % (a, r.choice(['[]', '[1]', '["a", 1]', '[1, "a"]', '[1, 2, 3]', '[nil, 1]', '[1, nil]', '[[1], 1]']))
         if k == 'resize':
             # growth is kept small (or beyond the limit): the model would build the list
             return 'tr = %s; tr resize %s; g1 = count tr; g2 = tr;' % (a, r.choice(SMALL + ['-100', '1e400', '-1e400', '10000000', '1e10', '4e9', '2147483648', '-2147483904', '12', '40']))
         if k == 'deleteat':
-            return 'tr = %s; g1 = tr deleteAt %s; g2 = tr;' % (a, self.n())
+            return 'tr = %s; g1 = tr deleteAt %s; g2 = tr;' % (a, self.n(size=size))
         if k == 'deleterange':
-            return 'tr = %s; tr deleteRange [%s, %s]; g1 = count tr; g2 = tr;' % (a, self.n(), self.n())
+            return 'tr = %s; tr deleteRange [%s, %s]; g1 = count tr; g2 = tr;' % (a, self.n(size=size), self.n(size=size))
         if k == 'deleterange_bad':
             return 'tr = %s; tr deleteRange %s; g2 = tr;' % (a, r.choice(['[]', '[1]', '["a", 1]', '[1, "a"]', '[1, 2, 3]', '["a", "b"]', '[nil, 1]']))
         if k == 'set':
             return 'tr = %s; tr set [%s, 7]; g1 = count tr; g2 = tr;' % (a, r.choice(SMALL + ['-100', '1e400', '10000000', '1e10', '4e9', '2147483648', '-2147483904', '12', '30', '"a"', 'nil']))
         if k == 'sort':
-            keys = r.choice(['nums', 'nums_nan', 'strs', 'pairs', 'pairs_nan', 'mixed', 'shape', 'one', 'empty', 'nested', 'bools', 'lens'])
+            keys = r.choice(['nums', 'nums_nan', 'strs', 'pairs', 'pairs_nan', 'mixed', 'shape', 'one', 'empty', 'nested', 'bools', 'lens', 'many_nan', 'many_nan_pairs'])
             self.note('sort:' + keys)
             asc = r.choice(['true', 'false'])
             if keys == 'nums':
@@ -60,6 +65,11 @@ class KernGen:
                 xs = ['[%s, "%s"]' % (r.choice(['1', '2']), v) for v in self.distinct(['k', 'a', 'c', 'b', 'z', 'm'])] if r.chance(1, 2) else ['[%s, "x"]' % v for v in ns]
             elif keys == 'pairs_nan':
                 xs = ['[%s, %s]' % (v, w) for v, w in zip(self.distinct(['1', '1e400', '2', '0']), ['5', '6', '7', '8'])]
+            elif keys == 'many_nan':
+                # enough equal (unordered) keys for the sorting routine to leave its insertion sort
+                xs = ['1e400'] * (17 + r.below(8))
+            elif keys == 'many_nan_pairs':
+                xs = ['[1e400, %d]' % (40 - i) for i in range(18 + r.below(8))]
             elif keys == 'mixed':
                 xs = ['1', '"a"', '2']
             elif keys == 'shape':
